@@ -16,7 +16,7 @@ RULE = ("Hypothesis draws a series (10 classes, n 4..200, |v|+|c| <= 1e4), a gap
         "(integer a, b) -> the same line at every cell incl. gaps, every variant; (2) f(y+c, nodata+c) == f(y, nodata)+c with the same "
         "lambda; (3) f(reversed y) == reversed f(y) with the same lambda for gu, pgu, optv, optvp, optvplc. A unit difference is "
         "accepted only where an independent reference curve sits within the tie width of a half, a different lambda only if both are "
-        "reference near-minimisers. The prange cube driver ws2doptvplc_tyx is held to relation (2) as well. Non-trivial: c != 0 / non-palindromic and the series is not itself linear (2-3); any linear "
+        "reference near-minimisers. Relation (1) is also checked through the whits / whitsvc / whitswcv accessors for uint8/int8/uint16/int16/int32/float32 rasters. The prange cube driver ws2doptvplc_tyx is held to relation (2) as well. Non-trivial: c != 0 / non-palindromic and the series is not itself linear (2-3); any linear "
         "series (1); distinct by content hash.")
 ASSUME = ["LAPACK reference curve only used to adjudicate unit differences (rounding ties)"]
 
@@ -235,7 +235,41 @@ def sub_offset_tyx(case, rec=None):
     return why
 
 
-SUBS = {"linear": sub_linear, "offset": sub_offset, "reverse": sub_reverse, "offset_tyx": sub_offset_tyx}
+def sub_accessor_linear(case):
+    """Relation (1) through the accessors, for every integer / float input dtype: a linear series comes back as that line (gaps and
+    edge gaps filled on the line, also where the line leaves the range of the INPUT dtype - the result is int16)."""
+    import pandas as pd
+    import xarray as xr
+    import hdc.algo  # noqa: F401
+    from harness.util import call
+
+    n, a, b = case["n"], case["a"], case["b"]
+    line = np.array([a * t + b for t in range(n)], dtype="int64")
+    valid = np.array(case["valid"], dtype=bool)
+    dt = case["dtype"]
+    nd = case["nodata"]
+    arr = line.copy()
+    arr[~valid] = nd
+    cube = arr.astype(dt).reshape(1, 1, n)
+    da = xr.DataArray(cube, dims=("y", "x", "time"), coords={"time": pd.date_range("2010-01-01", periods=n, freq="10D")}).transpose(*case["dims"])
+    prm = _prm(case)
+    kw = {"p": prm["p"]} if "p" in prm else {}
+    op = case["op"]
+    if op == "whits":
+        band = call("whits", lambda: da.hdc.whit.whits(nd, s=prm["lam"], **kw))
+    elif op == "whitsvc":
+        band = call("whitsvc", lambda: da.hdc.whit.whitsvc(nd, srange=prm["llas"], **kw))["band"]
+    else:
+        band = call("whitswcv", lambda: da.hdc.whit.whitswcv(nd, srange=prm["llas"], robust=case["robust"], **kw))["band"]
+    got = band.transpose("y", "x", "time").values[0, 0].astype(np.int64)
+    if not np.array_equal(got, line):
+        lam = prm.get("lam", 1.0)
+        bad = int(np.nonzero(got != line)[0][0])
+        raise Violation("%s on a %s raster does not return the linear series %d*t%+d (cell %d: got %d, line %d; valid=%s, result dtype %s)" % (
+            op, dt, a, b, bad, got[bad], line[bad], fmt(valid.astype(int), 20), band.dtype), signature="%s accessor linear not preserved" % op)
+
+
+SUBS = {"linear": sub_linear, "offset": sub_offset, "reverse": sub_reverse, "offset_tyx": sub_offset_tyx, "accessor_linear": sub_accessor_linear}
 
 
 @st.composite
@@ -311,6 +345,45 @@ def run(ctx):
         rec.case("linear", case, nontrivial=why is None, cls=[case["variant"], "gap:" + case["gcls"], "a=0" if case["a"] == 0 else "a!=0"])
 
     ctx.given("linear", linear_case(), ctx.n(900, 12000), fn=f_lin)
+
+    DT_RANGE = {"uint8": (0, 255), "int8": (-128, 127), "uint16": (0, 65535), "int16": (-10000, 10000), "int32": (-10000, 10000), "float32": (-10000, 10000)}
+
+    @st.composite
+    def acc_lin(draw):
+        dt = draw(st.sampled_from(sorted(DT_RANGE)))
+        lo, hi = DT_RANGE[dt]
+        hi = min(hi, 20000)
+        op = draw(st.sampled_from(["whits", "whitsvc", "whitswcv"]))
+        need = 5 if op == "whitswcv" else 2
+        n = draw(st.integers(max(5, need), 30))
+        g = draw(gens.gap_mask(n, classes=["leading", "trailing", "lead_trail", "isolated", "none"], min_valid=need))
+        idx = [i for i, v in enumerate(g["valid"]) if v]
+        # the line must fit the input dtype at the VALID cells only; at edge gaps it may leave it (but not int16)
+        a = draw(st.integers(-(hi - lo) // max(idx[-1] - idx[0], 1), (hi - lo) // max(idx[-1] - idx[0], 1)))
+        vals_rel = [a * (i - idx[0]) for i in idx]
+        b0 = draw(st.integers(lo - min(vals_rel), hi - max(vals_rel)))
+        b = b0 - a * idx[0]
+        line = [a * t + b for t in range(n)]
+        if max(abs(v) for v in line) > 32000:
+            a, b = 0, draw(st.integers(lo, hi))
+            line = [b] * n
+        used = {line[i] for i in idx}
+        nd = next(c for c in ([hi, lo, hi - 1, lo + 1] + list(range(lo, hi))) if c not in used)
+        case = {"n": n, "a": a, "b": b, "valid": g["valid"], "dtype": dt, "nodata": nd, "op": op, "dims": list(draw(st.permutations(["time", "y", "x"]))),
+                "robust": draw(st.booleans()), "gcls": g["gcls"]}
+        if op == "whits":
+            case["loglam"] = draw(gens.loglam(-2.0, 4.0))
+        else:
+            case["sr"] = draw(gens.srange(min_count=2 if op == "whitswcv" else 3, lo=-3.0, hi=4.0))
+        if draw(st.booleans()):
+            case["p"] = draw(gens.pvals)
+        return case
+
+    def f_al(case):
+        rec.case("accessor_linear", case, nontrivial=True, cls=["dtype:" + case["dtype"], "op:" + case["op"], "gap:" + case["gcls"]])
+        sub_accessor_linear(case)
+
+    ctx.given("accessor_linear", acc_lin(), ctx.n(300, 4000), fn=f_al)
 
     def f_off(case):
         why = sub_offset(case, rec)
